@@ -67,6 +67,7 @@ def arith (op : String) (a b : FV) : Option FV :=
      | "+" => some (.i (Rng.wrap64 (x + y)))
      | "-" => some (.i (Rng.wrap64 (x - y)))
      | "*" => some (.i (Rng.wrap64 (x * y)))
+     | "%" => if y = 0 then none else some (.i (Int.tmod x y))      -- Go's remainder truncates towards zero; % 0 panics
      | _ => none)
   | _, _ =>
     match op with
